@@ -321,6 +321,12 @@ def _reset(ctx, N):
         for r1_, r2_ in ((1, 0), (0, 1)):
             cases.append((f"{pkg}.CUR: recompute_every={r1_} then {r2_}", f"skmatter.{pkg}_selection.CUR", {"n_to_select": integer("S"), "recompute_every": r1_}, X1y1, Xy, [("S", "<=", S)], {"recompute_every": r2_}))
         cases.append((f"{pkg}.FPS: threshold then none", f"skmatter.{pkg}_selection.FPS", {"n_to_select": integer("S"), "score_threshold": scalar("thr"), "score_threshold_type": "relative"}, X1y1, Xy, [("S", "<=", S)], {"score_threshold": None}))
+    # fit_transform is fit followed by transform on the same data, in every configuration
+    flagsets = [{"with_mean": a_, "with_std": b_, "column_wise": c_} for a_ in (True, False) for b_ in (True, False) for c_ in (True, False)]
+    protocols.fit_transform_consistency(ctx, N, "R-RESET", "skmatter.preprocessing.StandardFlexibleScaler", flagsets, lambda: (arr("X", "N", "M"),), lambda: {"sample_weight": arr("w", "N")})
+    protocols.fit_transform_consistency(ctx, N, "R-RESET", "skmatter.preprocessing.StandardFlexibleScaler", flagsets, lambda: (arr("X", "N", "M"),))
+    kflags = [{"with_center": a_, "with_trace": b_} for a_ in (True, False) for b_ in (True, False)]
+    protocols.fit_transform_consistency(ctx, N, "R-RESET", "skmatter.preprocessing.KernelNormalizer", kflags, lambda: (arr("K", "N", "N"),), lambda: {"sample_weight": arr("w", "N")})
     for case in cases:
         name, cls, ctor, A, B, order = case[:6]
         change = case[6] if len(case) > 6 else {}
